@@ -26,6 +26,9 @@ CODES = {"empty_crossover": 0, "one_point_crossover": 1, "two_point_crossover": 
          "uniform_proportional_crossover": 4, "uniform_rank_crossover": 5, "uniform_tournament_crossover": 6}
 
 
+GUARD = {}     # persistent copies of the parent arrays handed to the operators: they must never change
+
+
 def gen(ctx):
     TP.emit()
 
@@ -90,6 +93,13 @@ def run(ctx, rep):
 
     def add_cx(name, ps, f, r, script, out, extra_ok=True, clause=""):
         code = CODES[name]
+        cp = GUARD.get(np.asarray(ps).tobytes()) if isinstance(ps, np.ndarray) else None
+        if cp is not None and not np.array_equal(cp, ps):
+            rep.problem("inputs", f"{name} modified its parents", dict(fn=name, parents=np.asarray(ps).tolist(), after=cp.tolist(), draws=script),
+                        "inputs-modified", True, cp.tolist(), np.asarray(ps).tolist(), "C06_inputs_unmodified")
+            GUARD[np.asarray(ps).tobytes()] = ps.copy()
+        if isinstance(out, np.ndarray) and cp is not None and np.shares_memory(out, cp):
+            rep.problem("inputs", f"{name} returned a view of its parents", dict(fn=name, parents=np.asarray(ps).tolist()), "inputs-modified", True)
         case = dict(fn=name, parents=np.asarray(ps).tolist(), fitness=list(map(float, f)), rank=list(map(float, r)), draws=script)
         rep.count(name, (np.asarray(ps).tobytes(), tuple(f), tuple(r), tuple(script)))
         f_cx.add(f"({C.cnat(code)}, {rows(ps)}, {qs(f)}, {qs(r)}, {C.cdraws(script)}, {C.clist([int(v) for v in out], C.cz)})", case)
@@ -100,7 +110,7 @@ def run(ctx, rep):
         ps = labelled(2, n)
         fit, rk = [1.0, 2.0], [1.0, 2.0]
         seen1, seen2 = set(), set()
-        for script, out in MR.enumerate_outcomes(CX + "one_point_crossover", lambda: (ps.copy(), np.array(fit), np.array(rk)), coin_u, max_depth=2):
+        for script, out in MR.enumerate_outcomes(CX + "one_point_crossover", lambda: (GUARD.setdefault(ps.tobytes(), ps.copy()), np.array(fit), np.array(rk)), coin_u, max_depth=2):
             case = add_cx("one_point_crossover", ps, fit, rk, script, out)
             d, aligned = donors(out, n)
             c, u = script[0][2], script[1][1]
@@ -114,7 +124,7 @@ def run(ctx, rep):
         if seen1 != family1:
             rep.problem("one_point", "one-point crossover cannot produce every child of its family", dict(n=n, missing=sorted(family1 - seen1), extra=sorted(seen1 - family1)),
                         "one_point:complete", True, None, None, "C06_one_point_complete")
-        for script, out in MR.enumerate_outcomes(CX + "two_point_crossover", lambda: (ps.copy(), np.array(fit), np.array(rk)), coin_u, max_depth=4):
+        for script, out in MR.enumerate_outcomes(CX + "two_point_crossover", lambda: (GUARD.setdefault(ps.tobytes(), ps.copy()), np.array(fit), np.array(rk)), coin_u, max_depth=4):
             case = add_cx("two_point_crossover", ps, fit, rk, script, out)
             d, aligned = donors(out, n)
             idx = [s[2] for s in script if s[0] == "I"]
@@ -136,7 +146,7 @@ def run(ctx, rep):
             fit = [float((3 * p + 1) % 4) for p in range(k)]
             rk = [float(p + 1) for p in range(k)]
             seen = set()
-            for script, out in MR.enumerate_outcomes(CX + "uniform_crossover", lambda: (ps.copy(), np.array(fit), np.array(rk)), [], max_depth=n):
+            for script, out in MR.enumerate_outcomes(CX + "uniform_crossover", lambda: (GUARD.setdefault(ps.tobytes(), ps.copy()), np.array(fit), np.array(rk)), [], max_depth=n):
                 case = add_cx("uniform_crossover", ps, fit, rk, script, out)
                 d, aligned = donors(out, n)
                 seen.add(tuple(d))
@@ -154,7 +164,7 @@ def run(ctx, rep):
                         continue
                     fa = w if pick == 0 else fit
                     ra = w if pick == 1 else rk
-                    for script, out in MR.enumerate_outcomes(CX + wname, lambda: (ps.copy(), np.array(fa), np.array(ra)), ug, max_depth=n):
+                    for script, out in MR.enumerate_outcomes(CX + wname, lambda: (GUARD.setdefault(ps.tobytes(), ps.copy()), np.array(fa), np.array(ra)), ug, max_depth=n):
                         case = add_cx(wname, ps, fa, ra, script, out)
                         d, aligned = donors(out, n)
                         cs = np.cumsum(np.array(w))
@@ -173,7 +183,7 @@ def run(ctx, rep):
             for fit in ([float(p) for p in range(k)], [1.0] * k, [float(k - p) for p in range(k)]):
                 rk = [1.0] * k
                 seen = set()
-                for script, out in enumerate_plain("uniform_tournament_crossover", lambda: (ps.copy(), np.array(fit), np.array(rk)), [], max_depth=2 * n):
+                for script, out in enumerate_plain("uniform_tournament_crossover", lambda: (GUARD.setdefault(ps.tobytes(), ps.copy()), np.array(fit), np.array(rk)), [], max_depth=2 * n):
                     case = add_cx("uniform_tournament_crossover", ps, fit, rk, script, out)
                     d, aligned = donors(out, n)
                     seen.update(d)
@@ -197,8 +207,13 @@ def run(ctx, rep):
         x = np.array([i % 2 for i in range(n)], dtype=np.int8)
         m = np.array([10 + i for i in range(n)], dtype=np.int8)
         for CR in (0.0, 0.5, 1.0):
-            for script, out in MR.enumerate_outcomes(CX + "binomialGA", lambda: (x.copy(), m.copy(), np.float64(CR)), ug, max_depth=n + 1):
+            xa, ma = x.copy(), m.copy()      # the SAME arrays are handed to every call: they must never change
+            for script, out in MR.enumerate_outcomes(CX + "binomialGA", lambda: (xa, ma, np.float64(CR)), ug, max_depth=n + 1):
                 case = dict(fn="binomialGA", individ=x.tolist(), mutant=m.tolist(), CR=CR, draws=script)
+                if not (np.array_equal(xa, x) and np.array_equal(ma, m)) or np.shares_memory(out, xa) or np.shares_memory(out, ma):
+                    rep.problem("inputs", "binomialGA modified (or returned a view of) its input", case, "inputs-modified", True,
+                                [xa.tolist(), ma.tolist()], [x.tolist(), m.tolist()], "C06_inputs_unmodified")
+                    xa, ma = x.copy(), m.copy()
                 rep.count("binomialGA", (n, CR, tuple(script)))
                 j = int(np.floor(n * script[0][1]))
                 exp = [int(m[i]) if (script[1 + i][1] < CR or i == j) else int(x[i]) for i in range(n)]
@@ -207,8 +222,12 @@ def run(ctx, rep):
                                 [int(v) for v in out], exp, "C06_binomial_at_least_one")
                 f_bn.add(f"({C.clist(x.tolist(), C.cz)}, {C.clist(m.tolist(), C.cz)}, {C.cq(CR)}, {C.cdraws(script)}, {C.clist([int(v) for v in out], C.cz)})", case)
         for p in (-0.5, 0.0, 0.3, 0.5, 1.0, 1.5):
-            for script, out in MR.enumerate_outcomes("thefittest.utils.mutations.flip_mutation", lambda: (x.copy(), np.float64(p)), ug, max_depth=n):
+            xa = x.copy()
+            for script, out in MR.enumerate_outcomes("thefittest.utils.mutations.flip_mutation", lambda: (xa, np.float64(p)), ug, max_depth=n):
                 case = dict(fn="flip_mutation", individual=x.tolist(), proba=p, draws=script)
+                if not np.array_equal(xa, x) or np.shares_memory(out, xa):
+                    rep.problem("inputs", "flip_mutation modified (or returned a view of) its input", case, "inputs-modified", True, xa.tolist(), x.tolist(), "C06_inputs_unmodified")
+                    xa = x.copy()
                 rep.count("flip_mutation", (n, p, tuple(script)))
                 exp = [int(1 - x[i]) if script[i][1] < p else int(x[i]) for i in range(n)]
                 if [int(v) for v in out] != exp:
